@@ -99,7 +99,7 @@ func TestC25(t *testing.T) {
 		r.Count(fmt.Sprintf("redis_nodestatus_missing_node=%v", nodeDiv))
 		desc := map[string]any{"source": src, "steps": steps, "etcd_time": map[bool]string{false: "virtual (lease revoke at the virtual deadline)", true: "real seconds"}[e.Real]}
 		tags := map[string]any{"redis_nodestatus_missing_node": nodeDiv, "src": src}
-		r.Add(sh.L(items), desc, tags, accepted >= 2 && reads >= 1)
+		r.Add(sh.CaseTerm(items), desc, tags, accepted >= 2 && reads >= 1)
 	}
 
 	for _, ops := range corpus() {
